@@ -3,7 +3,7 @@ prop(
     quick=[("native", 16)],
     thorough=[("native", 16), ("asan", 8), ("miri", 8), ("fuzz", 16)],
     level="exploration",
-    min_evals={"quick": 30_000, "thorough": 3_000_000},
+    min_evals={"quick": 350_000, "thorough": 3_000_000},
     # configuration of the `fuzz` stage (driver side: run_fuzz_stage in ../../check, target: harness/fuzz/fuzz_targets/c11_xml.rs)
     fuzz={
         "seconds": 120,
@@ -29,6 +29,12 @@ prop(
         "A case signature (distinct_nontrivial) is (message variant, which string fields carry XML-special characters, which carry edge "
         "spaces, list-size classes, resource-shape classes / payload class) for strict round-trip cases, and (parser, mutator) for mutants; "
         "cases built from values outside the protocols (see assumptions) are not counted as signatures. "
+        "Text-level documents: messages that only the decoders can produce. The harness' own XML writer (nothing from rpki::xml) writes every RFC 6492 / 8181 / 8183 message kind from protocol-valid "
+        "field values with each optional part independently present or absent (xmlns, version, <description> and its xml:lang, <error_text>, <failed_pdu>, tag on report_error and on the RFC 8183 messages, "
+        "hash on <publish>, req_resource_set_as/ipv4/ipv6 on <request> and <certificate>, resource_set_as/ipv4/ipv6 on <class>, rrdp_notification_uri) and with extras the constructors never emit "
+        "(suggested_sia_head, <issuer> not last, padded ski, <offer/>, <referral>, namespace without trailing slash), in several spellings (declaration, comments, quote style, attribute order, compact, "
+        "explicit end tags, folded Base64, CRLF). If the decoder accepts the document, the returned message m must be written without error, the output must satisfy expat, parse back to m' == m, and "
+        "writing m' must give the same bytes; a rejected document asserts nothing. Signature: (variant, set of parts left out, set of extras). "
         "The fuzz stage (thorough) adds coverage-guided libFuzzer executions of target c11_xml: input octet 0 selects one of the six parsers (provisioning::Message::decode, "
         "publication::Message::decode, ChildRequest / ParentResponse / PublisherRequest / RepositoryResponse::parse), the rest (up to 16 KiB) is the document; judged by the same "
         "function as the mutants (no panic in the parser, in writing an accepted value or in parsing that again; hook H1 drained). Seeded with up to 480 documents the library wrote "
@@ -41,6 +47,7 @@ prop(
         "equality is the message types' own PartialEq (certificates and CSRs compare by their DER)",
         "resource chains built while parsing hostile attribute text are checked by hook H1; a non-canonical chain there is reported under C11:hook-h1:* although the cause lies in the resource text parser (C03)",
         "what an accepted mutant re-encodes to is recorded, not judged (its field values need not be protocol-valid)",
+        "a message returned by a decoder for a document whose field values are all protocol-valid is a message constructed through the public API from protocol-valid field values; the round-trip law applies to it (text-level documents); a <publish>/<withdraw> without tag stays lenient there too",
     ],
     level_text=(
         "Runtime monitoring of the real writers and parsers on generated messages: every written document is judged by an independent XML "
@@ -54,6 +61,6 @@ prop(
         "Sampling, not proof: string fields are ASCII only, lists up to ~600 entries, documents up to ~250 kB; certificate-bearing variants "
         "reuse 3 certificates / 3 CSRs / 2 identity certificates per shard; Miri sees no certificate-bearing variant and no expat verdicts."
     ),
-    technique="runtime oracle (independent expat parser + round-trip equivalence) over generated messages; mutation-based and coverage-guided (libFuzzer) parser robustness; ASan + Miri",
+    technique="runtime oracle (independent expat parser + round-trip equivalence) over constructor-built messages and over messages decoded from independently written documents with every optional part present/absent; mutation-based and coverage-guided (libFuzzer) parser robustness; ASan + Miri",
     design_ref="DESIGN.md §4 C11",
 )
